@@ -195,6 +195,12 @@ func (c *conn) OnClosed(fn func()) (unsub func(), _ bool) {
 	// Add listener
 	id := c.addClosed(fn1)
 	if id == 0 {
+		// The connection was closed, possibly while the listener was being registered.
+		// If it has already been notified the registration took effect, otherwise make
+		// sure it never runs.
+		if !called.CompareAndSwap(false, true) {
+			return func() {}, true
+		}
 		return nil, false
 	}
 
